@@ -29,7 +29,8 @@ def regenerate(repo, gen_dir):
     ch2 = gen_unicode(repo, gen_dir)
     ch3 = gen_apx_patterns(repo, gen_dir)
     ch4 = gen_problem_grammar(repo, gen_dir)
-    return ch or ch2 or ch3 or ch4
+    ch5 = gen_sat_tokens(repo, gen_dir)
+    return ch or ch2 or ch3 or ch4 or ch5
 
 
 def parse_char(tok):
@@ -279,3 +280,39 @@ def gen_problem_grammar(repo, gen_dir):
         ", ".join('"%s"' % v for v in variants("Semantics")), ", ".join('"%s"' % v for v in variants("Query")),
         table(arms("Semantics")), table(arms("Query")))
     return write_if_changed(os.path.join(gen_dir, "Problem.lean"), content)
+
+
+# ----------------------------------------------------------------------------- tokens of the DIMACS exchange (sat/buffered_sat_solver.rs)
+
+def gen_sat_tokens(repo, gen_dir):
+    """the literal tokens of the reply parser and of the DIMACS header, in the order of the if-chain;
+    Props/C16 proves that the Lean reply parser / renderer use exactly these"""
+    src = open(os.path.join(repo, "src/sat/buffered_sat_solver.rs")).read()
+    m = re.search(r"fn solve_under_assumptions\(.*?\n    \}\n", src, re.S)
+    if not m:
+        raise RuntimeError("solve_under_assumptions not found in buffered_sat_solver.rs")
+    body = m.group(0)
+    status = re.findall(r'line == "([^"]*)" \{\s*set_status\((true|false)\)', body)
+    if [b for _, b in status] != ["true", "false"]:
+        raise RuntimeError("unexpected status-line tests in the reply parser: %r" % status)
+    vpre = re.findall(r'else if line\.starts_with\("([^"]*)"\) \{\s*assignment_line_seen = true', body)
+    if len(vpre) != 1 or "split_ascii_whitespace().skip(1)" not in body or "parse::<isize>()" not in body:
+        raise RuntimeError("unexpected value-line handling in the reply parser")
+    tail = re.search(r'else if !line\.starts_with\("([^"]*)"\) && line != "([^"]*)" && line != "([^"]*)" && !line\.is_empty\(\) \{\s*panic!', body)
+    if not tail:
+        raise RuntimeError("unexpected final test (comment / bare lines) in the reply parser")
+    hdr = re.search(r'format!\(\s*"([^"{]*)\{\} \{\}\\n"', body)
+    if not hdr:
+        raise RuntimeError("unexpected DIMACS header format")
+
+    def codes(t):
+        return "[" + ", ".join(str(ord(c)) for c in t) + "]"
+    content = ("/-! Regenerated from /repo/src/sat/buffered_sat_solver.rs by tools/gen_from_source.py on every run. Do not edit. -/\n\n"
+               "namespace Crusta.Gen\n\n"
+               "/-- the two status lines, satisfiable first -/\ndef statusLines : List (List Nat) := [%s, %s]\n\n"
+               "/-- prefix of a value line -/\ndef valuePrefix : List Nat := %s\n\n"
+               "/-- prefix of a comment line, and the two bare lines that are skipped -/\n"
+               "def commentPrefix : List Nat := %s\ndef bareLines : List (List Nat) := [%s, %s]\n\n"
+               "/-- the DIMACS header up to the variable count -/\ndef dimacsHeaderPrefix : List Nat := %s\n\nend Crusta.Gen\n") % (
+        codes(status[0][0]), codes(status[1][0]), codes(vpre[0]), codes(tail.group(1)), codes(tail.group(2)), codes(tail.group(3)), codes(hdr.group(1)))
+    return write_if_changed(os.path.join(gen_dir, "SatTokens.lean"), content)
